@@ -10,7 +10,15 @@ the fields the header version carries:
     rx v1   rssi, toa256, nope flag, C/I, modulation, TSC set, TSC, every soft bit
     rx v1 NOPE  rssi, toa256, C/I, nope flag, burst is None  (modulation / TSC not carried)
 A v0 message generated with the two legacy padding octets must decode to the same message (all attributes)
-as the one generated without them.  Auxiliary leg "tables": the soft-bit translation -127..127 <-> 254..0
+as the one generated without them.
+History leg (keys C01:history:...): per work item ONE long-lived decoder object and ONE long-lived encoder object per
+class.  Every message of a base / burst chunk and every 8th of a sweep (same shape throughout; every 32nd of an all-FN
+sweep) is additionally parsed into the long-lived decoder (after whatever it parsed before) and
+must decode equal to the message just as on a fresh object; after every case of a base / burst chunk and every 32nd case
+of a sweep a "twin" (another valid message of different shape: rx v1 burst <-> NOPE.ind without burst, tx / rx v0 the
+other burst length) is encoded through the long-lived encoder with its fields reassigned - same octets as from a new
+object - and decoded by the long-lived decoder; the buffer an earlier gen_msg() returned must be unchanged after the next
+gen_msg() on the same or on another object (aliasing).  Auxiliary leg "tables": the soft-bit translation -127..127 <-> 254..0
 is the identity on that range, and the hard/soft helpers keep polarity (0 <-> positive, 1 <-> negative).
 """
 from array import array
@@ -62,25 +70,12 @@ RX_ATTRS = ("ver", "fn", "tn", "rssi", "toa256", "mod_type", "nope_ind", "tsc_se
 TX_ATTRS = ("ver", "fn", "tn", "pwr")
 
 
-def check_case(e, c, stat=None):
-    """Round trip of one case.  -> list of (key, msg).  stat (dict) receives counters."""
-    dm = e["dm"]
+def compare_fields(e, c, p, data, pre):
+    """decoder object p (after it parsed `data`, the encoding of case c) against the case, restricted to the fields
+    the header version carries.  -> ([(key, msg)], fields compared, burst bits compared)"""
     cls, ver = c["cls"], c["ver"]
     nope = cls == "rx" and ver == 1 and c["nope"]
-    pre = "C01:%s:v%d%s" % (cls, ver, ":nope" if nope else "")
     out = []
-    try:
-        data = E.build_tk(dm, c).gen_msg(c["legacy"])
-    except Exception as ex:
-        return [("%s:gen-raises-%s" % (pre, type(ex).__name__),
-                 "gen_msg(legacy=%s) raised %s(%s) on a valid message" % (c["legacy"], type(ex).__name__, ex))]
-    p = dm.TxMsg() if cls == "tx" else dm.RxMsg()
-    try:
-        # as data_if.py hands it over: bytes for Tx, bytearray for Rx
-        p.parse_msg(bytes(data) if cls == "tx" else bytearray(data))
-    except Exception as ex:
-        return [("%s:parse-raises-%s" % (pre, type(ex).__name__),
-                 "parse_msg() raised %s(%s) on the toolkit's own encoding %s" % (type(ex).__name__, ex, bytes(data[:12]).hex()))]
     nf = 3
 
     def cmp(field, got, exp):
@@ -117,6 +112,32 @@ def check_case(e, c, stat=None):
         if not burst_equal(p.burst, exp, cls):
             out.append((pre + ":burst", "burst %r (%d bits): %s" % (c["burst"], c["bl"],
                         "decoded None" if p.burst is None else first_diff(p.burst, exp))))
+    return out, nf, nbits
+
+
+def check_case(e, c, stat=None):
+    """Round trip of one case.  -> list of (key, msg).  stat (dict) receives counters."""
+    dm = e["dm"]
+    cls, ver = c["cls"], c["ver"]
+    nope = cls == "rx" and ver == 1 and c["nope"]
+    pre = "C01:%s:v%d%s" % (cls, ver, ":nope" if nope else "")
+    out = []
+    e["last_buf"] = None
+    try:
+        data = E.build_tk(dm, c).gen_msg(c["legacy"])
+    except Exception as ex:
+        return [("%s:gen-raises-%s" % (pre, type(ex).__name__),
+                 "gen_msg(legacy=%s) raised %s(%s) on a valid message" % (c["legacy"], type(ex).__name__, ex))]
+    p = dm.TxMsg() if cls == "tx" else dm.RxMsg()
+    try:
+        # as data_if.py hands it over: bytes for Tx, bytearray for Rx
+        p.parse_msg(bytes(data) if cls == "tx" else bytearray(data))
+    except Exception as ex:
+        return [("%s:parse-raises-%s" % (pre, type(ex).__name__),
+                 "parse_msg() raised %s(%s) on the toolkit's own encoding %s" % (type(ex).__name__, ex, bytes(data[:12]).hex()))]
+    e["last_buf"] = data
+    o, nf, nbits = compare_fields(e, c, p, data, pre)
+    out += o
     nrt = 1
     if ver == 0 and c["legacy"]:
         # the same message without the two padding octets must decode to the same message
@@ -142,6 +163,144 @@ def check_case(e, c, stat=None):
         stat["fields_compared"] += nf
         stat["burst_bits_compared"] += nbits
     return out
+
+
+# ---------------------------------------------------------------------------------------------
+# history: long-lived decoder / encoder objects and aliasing of returned buffers
+
+def twin(c):
+    """another VALID message of the same class and version that differs in shape, visited right after c so that the
+    long-lived objects alternate: rx v1 burst <-> NOPE.ind (no burst), tx / rx v0: the other burst length"""
+    if c["cls"] == "rx" and c["ver"] == 1:
+        if c["nope"]:
+            mod = c["mod"] or "GMSK"
+            return dict(c, nope=False, mod=mod, tsc_set=c["tsc_set"] or 0, tsc=c["tsc"] or 0, bl=E.MOD_BL[mod], burst=["ramp"], grp="twin")
+        return dict(c, nope=True, bl=None, burst=None, grp="twin")
+    return dict(c, bl=444 if c["bl"] == 148 else 148, burst=["alt"] if c["cls"] == "tx" else ["ramp"], grp="twin")
+
+
+SWEEP_TWIN_EVERY = 32
+SWEEP_REUSE_EVERY = 8       # in sweeps (same shape throughout) every 8th case also goes through the long-lived object(s)
+
+
+def seq_chunk(chunk):
+    """message sequence of a chunk: ("case", c) for every enumerated case, followed by ("twin", twin(c)) after every case
+    of a base / burst chunk and after every 32nd case of a sweep"""
+    every = SWEEP_TWIN_EVERY if chunk[0] == "sweep" else 1
+    allfn = chunk[0] == "sweep" and chunk[4] == "all"
+    for i, c in enumerate(E.cases(chunk)):
+        # every case of a base / burst chunk, every 8th of a sweep (same shape throughout), every 32nd of an all-FN sweep
+        # also goes through the long-lived objects
+        yield ("case" if i % (every if allfn else (SWEEP_REUSE_EVERY if chunk[0] == "sweep" else 1)) == 0 else "case-fresh-only"), c
+        if i % every == 0:
+            yield "twin", twin(c)
+
+
+class History:
+    """Per work item: ONE long-lived decoder object and ONE long-lived encoder object per class.
+      * every message of the sequence is parsed into the long-lived decoder as well; what it then holds must equal
+        the message just as for a fresh object (C01:history:<cls>:v<ver>[:nope]:<field>);
+      * twins are encoded through the long-lived encoder (fields reassigned) and through a fresh object: same octets
+        (C01:history:...:enc-reuse);
+      * the buffer returned by an earlier gen_msg() must not change when gen_msg() runs again, on the same or on another
+        object (C01:history:...:enc-aliasing)."""
+
+    def __init__(self, e):
+        self.e = e
+        dm = e["dm"]
+        self.dec = {"tx": dm.TxMsg(), "rx": dm.RxMsg()}
+        self.enc = {"tx": dm.TxMsg(), "rx": dm.RxMsg()}
+        self.prev = None                              # (buffer object, snapshot, label) of the previous gen_msg() of any object
+        self.enc_prev = {"tx": None, "rx": None}      # same, of the previous gen_msg() of the long-lived encoder
+        self.ring = []                                # the two messages before the current one
+        self.cov = {"hist_messages": 0, "hist_twins": 0, "hist_reused_decodes": 0, "hist_reused_encodes": 0,
+                    "hist_aliasing_checks": 0, "hist_burst_to_noburst": 0, "hist_noburst_to_burst": 0,
+                    "hist_length_changes": 0, "hist_fields_compared": 0, "hist_minimised": 0, "hist_not_minimised": 0}
+        self.last_bl = {"tx": -1, "rx": -1}
+
+    def process(self, kind, m, buf=None):
+        """-> ([(key, msg)], history = list of [kind, message])"""
+        e = self.e
+        dm = e["dm"]
+        cls, ver = m["cls"], m["ver"]
+        nope = cls == "rx" and ver == 1 and m["nope"]
+        fam = "C01:history:%s:v%d" % (cls, ver)
+        out = []
+        cov = self.cov
+        cov["hist_messages"] += 1
+        hist = self.ring + [[kind, m]]
+        self.ring = hist[-2:]
+        try:
+            if kind == "twin" or buf is None:
+                src = E.build_tk(dm, m)
+                fresh = src.gen_msg(m["legacy"])
+            if kind == "twin":
+                cov["hist_twins"] += 1
+                cov["hist_reused_encodes"] += 1
+                enc = self.enc[cls]
+                for a in (TX_ATTRS if cls == "tx" else RX_ATTRS) + ("burst",):
+                    setattr(enc, a, getattr(src, a))
+                buf = enc.gen_msg(m["legacy"])
+                if bytes(buf) != bytes(fresh):
+                    out.append((fam + ":enc-reuse", "an encoder object used before emits %s..., a new object %s... for the same message"
+                                % (bytes(buf[:12]).hex(), bytes(fresh[:12]).hex())))
+                ep = self.enc_prev[cls]
+                if ep is not None:
+                    cov["hist_aliasing_checks"] += 1
+                    if bytes(ep[0]) != ep[1]:
+                        out.append(("%s:enc-aliasing" % ep[2], "the buffer gen_msg() returned earlier changed when gen_msg() ran again on the "
+                                    "same object: was %s..., now %s..." % (ep[1][:12].hex(), bytes(ep[0][:12]).hex())))
+                self.enc_prev[cls] = (buf, bytes(buf), fam)
+            elif buf is None:
+                buf = fresh
+        except Exception as ex:
+            out.append(("%s:gen-raises-%s" % (fam, type(ex).__name__), "gen_msg() raised %s(%s) on a valid message" % (type(ex).__name__, ex)))
+            return out, hist
+        if self.prev is not None and self.prev[0] is not buf:
+            cov["hist_aliasing_checks"] += 1
+            if bytes(self.prev[0]) != self.prev[1]:
+                out.append(("%s:enc-aliasing" % self.prev[2], "the buffer gen_msg() returned for the previous message changed when gen_msg() "
+                            "ran for the next one: was %s..., now %s..." % (self.prev[1][:12].hex(), bytes(self.prev[0][:12]).hex())))
+        self.prev = (buf, bytes(buf), fam)
+        p = self.dec[cls]
+        cov["hist_reused_decodes"] += 1
+        try:
+            p.parse_msg(bytes(buf) if cls == "tx" else bytearray(buf))
+        except Exception as ex:
+            out.append(("%s:parse-raises-%s" % (fam, type(ex).__name__), "parse_msg() on a decoder object used before raised %s(%s)"
+                        % (type(ex).__name__, ex)))
+            return out, hist
+        o, nf, _ = compare_fields(e, m, p, buf, fam + (":nope" if nope else ""))
+        cov["hist_fields_compared"] += nf
+        out += o
+        bl = m["bl"] or 0
+        last = self.last_bl[cls]
+        if last >= 0:
+            if last > 0 and bl == 0:
+                cov["hist_burst_to_noburst"] += 1
+            elif last == 0 and bl > 0:
+                cov["hist_noburst_to_burst"] += 1
+            elif last != bl:
+                cov["hist_length_changes"] += 1
+        self.last_bl[cls] = bl
+        return out, hist
+
+
+def replay_history(e, hist):
+    H = History(e)
+    r = []
+    for kind, m in hist:
+        r, _ = H.process(kind, m)
+    return r
+
+
+def history_viol(e, H, key, msg, hist, chunk, n):
+    for h in (hist[-2:], hist):
+        if any(k == key for k, _ in replay_history(e, h)):
+            H.cov["hist_minimised"] += 1
+            return (key, {"leg": "history", "msgs": h}, msg)
+    H.cov["hist_not_minimised"] += 1
+    return (key, {"leg": "history-seq", "chunk": chunk, "n": n}, msg)
 
 
 def check_tables(e):
@@ -175,6 +334,7 @@ def check_tables(e):
 
 def work(chunk):
     e = env()
+    H = History(e)
     stat = {"roundtrips": 0, "fields_compared": 0, "burst_bits_compared": 0}
     by_class, by_group = {}, {}
     viol, vkeys, nviol = [], set(), 0
@@ -182,26 +342,38 @@ def work(chunk):
     sample = None
     n = 0
     sweep = chunk[3] if chunk[0] == "sweep" else None
-    for c in E.cases(chunk):
-        n += 1
-        r = check_case(e, c, stat)
-        # inside a sweep chunk the cases differ in the swept field only
-        k = c[sweep] if sweep else E.case_key(c)
-        keys.add(k)
-        kl = E.class_of(c)
-        by_class[kl] = by_class.get(kl, 0) + 1
-        by_group[c["grp"]] = by_group.get(c["grp"], 0) + 1
-        if sample is None:
-            sample = c
-        if not r or not any("-raises-" in x[0] for x in r):
-            good.add(k)
-        for key, msg in r:
+    for i, (kind, c) in enumerate(seq_chunk(chunk)):
+        buf = None
+        if kind != "twin":
+            n += 1
+            r = check_case(e, c, stat)
+            buf = e["last_buf"]
+            # inside a sweep chunk the cases differ in the swept field only
+            k = c[sweep] if sweep else E.case_key(c)
+            keys.add(k)
+            kl = E.class_of(c)
+            by_class[kl] = by_class.get(kl, 0) + 1
+            by_group[c["grp"]] = by_group.get(c["grp"], 0) + 1
+            if sample is None:
+                sample = c
+            if not r or not any("-raises-" in x[0] for x in r):
+                good.add(k)
+            for key, msg in r:
+                nviol += 1
+                if key not in vkeys:
+                    vkeys.add(key)
+                    viol.append((key, c, msg))
+        if kind == "case-fresh-only":
+            continue
+        hr, hist = H.process(kind, c, buf)
+        for key, msg in hr:
             nviol += 1
             if key not in vkeys:
                 vkeys.add(key)
-                viol.append((key, c, msg))
+                viol.append(history_viol(e, H, key, msg, hist, chunk, i))
     cov = dict(stat, evaluations=n, distinct_cases=len(keys), distinct_nontrivial=len(good),
                by_class=by_class, by_group=by_group, chunks=1)
+    cov.update(H.cov)
     return {"cov": cov, "viol": viol, "nviol_extra": nviol - len(viol), "samples": [sample] if sample else []}
 
 
@@ -235,7 +407,14 @@ def run(ctx):
     c["rule"] = (E.rule(ctx.tier) + " One evaluation = build the toolkit object from the case, gen_msg(legacy), parse_msg() on a "
                  "fresh object, compare every carried field and every burst bit with the case (v0+legacy: additionally against the "
                  "decoding of the unpadded twin). Non-trivial = the toolkit encoded the case and parsed its own encoding, so that "
-                 "fields were actually compared (distinct by case key = all message fields + burst pattern + legacy flag).")
+                 "fields were actually compared (distinct by case key = all message fields + burst pattern + legacy flag). "
+                 "History leg (hist_* counters, not part of evaluations/distinct_nontrivial): per work item one long-lived decoder and "
+                 "one long-lived encoder object per class; every message of a base/burst chunk, every 8th of a sweep (32nd of an all-FN "
+                 "sweep) is also parsed into the long-lived decoder and "
+                 "compared field by field; after every case of a base/burst chunk and every 32nd case of a sweep a twin message of "
+                 "different shape (rx v1 burst <-> NOPE.ind, tx / rx v0 other burst length) is encoded through the long-lived encoder "
+                 "(octets must equal a new object's) and decoded by the long-lived decoder; previously returned buffers must stay "
+                 "unchanged (aliasing). Work items, not worker processes, own these objects, so results do not depend on scheduling.")
     c["exhaustive"] = True
     ctx.assumptions += ["joint products of wide fields are not enumerated (one wide field at a time at 3 base points)",
                         "burst contents are the stated pattern families, not {0,1}^n / [-127,127]^n",
@@ -247,6 +426,21 @@ def replay(ctx, case):
     if case.get("leg") == "tables":
         for k, m in check_tables(e):
             ctx.violation(k, case, m)
+        return
+    if case.get("leg") == "history":
+        for k, m in replay_history(e, case["msgs"]):
+            ctx.violation(k, case, m)
+        return
+    if case.get("leg") == "history-seq":
+        H = History(e)
+        for i, (kind, c) in enumerate(seq_chunk(case["chunk"])):
+            if kind == "case-fresh-only":
+                continue
+            hr, _ = H.process(kind, c)
+            if i == case["n"]:
+                for k, m in hr:
+                    ctx.violation(k, case, m)
+                break
         return
     for k, m in check_case(e, case):
         ctx.violation(k, case, m)
